@@ -95,6 +95,9 @@ type World struct {
 	Proxy   *VI.Echo
 	Comm    *tars.Communicator
 	Obj     string
+	// Prefill, when set, is called for every out parameter of a call before it is made, with the
+	// variable the proxy will decode into.
+	Prefill func(p Param, dst reflect.Value)
 }
 
 // NewWorld starts the real server stack for the recording servant on app and connects a
@@ -161,6 +164,9 @@ func (w *World) Call(ctx context.Context, fn *Func, form string, ins []interface
 		_ = i
 		if p.Out {
 			ptr := reflect.New(p.GoT)
+			if w.Prefill != nil {
+				w.Prefill(p, ptr.Elem()) // the caller's out variable is in use: it holds something already
+			}
 			outPtrs = append(outPtrs, ptr)
 			args = append(args, ptr)
 			continue
